@@ -4,6 +4,7 @@
 -/
 import Mathlib.LinearAlgebra.Matrix.NonsingularInverse
 import EasyMl.Lemmas.HeapsAll
+import EasyMl.Spec.MatrixResize
 
 namespace EasyMl.Det
 open Equiv
@@ -175,4 +176,8 @@ theorem inverseTensor_spec {ν : Type} [DecidableEq ν] [Inhabited ν] (names : 
       rw [List.length_map, indexPairs_length]
 
 end Field
+/-- C11's list-of-rows state as an input of determinant / inverse -/
+def rowsView {α : Type} [Zero α] (rs : Rows α) : View α :=
+  ⟨Rows.nrows rs, Rows.ncols rs, fun r c => (Rows.cell rs r c).getD 0⟩
+
 end EasyMl.Det
